@@ -686,6 +686,7 @@ def run_case(case, scratch):
                   'line_yields': sched.yield_counts.get('line', 0), 'db_yields': sched.yield_counts.get('db', 0),
                   'lock_yields': sched.yield_counts.get('lock-acquire', 0)},
         'obs': mode.obs if case.get('want_obs') else None,
+        'events': main_events if case.get('want_events') else None,
         'dirty': dirty,
         'sample': {'mode': case['mode'], 'threads': case['threads'], 'faults': case.get('faults', []),
                    'schedule': sched.trace[:40], 'outcome': outcome,
@@ -754,3 +755,7 @@ def shrink(case):
                     c.pop('solo', None)
                     c['_needs_solo'] = True
                     yield c
+
+
+from . import conc_data  # noqa: E402,F401  (registers the data modes)
+from . import conc_lock  # noqa: E402,F401
